@@ -27,6 +27,8 @@ func runC07(c *Ctx, r *Report) {
 	r.Doc("R-C07.2", "predecessor/reference lists are converted element-wise from the getter's own result")
 	r.Doc("R-C07.3", "no lossy or ambiguous conversion on the signing path")
 	r.Doc("R-C07.4", "every success return of Verify passed the signature check")
+	r.Doc("R-C07.5", "the loops that turn predecessor and reference lists into signed content process every element")
+	loopsComplete(c, r, "R-C07.5", func(fn *Fn) bool { return rootNamed(fn, "ToHashable", "toBuffer") }, "links after the point where the loop stops are not part of the signed bytes and can be replaced without invalidating the signature")
 	th := p.FuncI("entry", "", "ToHashable")
 	tb := p.FuncI("entry", "", "toBuffer")
 	hashT := p.Named("iface", "Hashable")
